@@ -140,6 +140,12 @@ fn txn_alphabet() -> Vec<&'static str> {
         // order prints different figures per run
         // account names that differ only by case: any ordering key coarser than the name itself leaves them tied
         "2024/01/19 l\n  Assets:Bank  1 X\n  Assets:bank  2 X\n  ASSETS:BANK  3 X\n  assets:Bank  -6 X\n\n",
+        // five commodities: S is quoted in P and in Q, both are quoted only in Y, Y in Z - two three-hop chains of identical
+        // rank that split BELOW the target's neighbour (30 Z or 48 Z for one S)
+        "2024/01/20 n\n  A  1 S @ 3 P\n  A  1 S @ 4 Q\n  A  1 P @ 5 Y\n  A  1 Q @ 6 Y\n  A  1 Y @ 2 Z\n  B\n\n",
+        // a residual below the declared precision of F next to a commodity without any declaration (its total is an exact
+        // zero entry of the same amount): whether the transaction balances must not depend on which is visited first
+        "commodity F\n  format 1.00 F\n\n2024/01/21 o\n  A  1.00475 F\n  B  -1 F\n  A  1 X\n  B  -1 X\n\n",
         "2024/01/18 k\n  H  1 P @ 5.1111111111111111111111111111 Z\n  H  1 Q @ 4.0000000000000000000000000004 Z\n  H  -1 R @ 4.0000000000000000000000000004 Z\n  B\n\n",
     ]
 }
@@ -160,7 +166,7 @@ fn commands(path: &str) -> Vec<Vec<String>> {
     ]
 }
 
-const PRELUDE: &str = "2024/01/01 declare\n  Z0  0 X\n  Z0  0 Y\n  Z0  0 Z\n  Z0  0 W\n  Z0  0 P\n  Z0  0 Q\n  Z0  0 R\n\n";
+const PRELUDE: &str = "2024/01/01 declare\n  Z0  0 X\n  Z0  0 Y\n  Z0  0 Z\n  Z0  0 W\n  Z0  0 P\n  Z0  0 Q\n  Z0  0 R\n  Z0  0 S\n\n";
 
 fn judge(text: &str, cmd_index: usize, path: &Path, bound: usize, ctx_tick: &dyn Fn(), execs: &mut u64) -> Outcome {
     std::fs::write(path, text).expect("write scratch ledger");
